@@ -55,7 +55,11 @@ Inductive stmt :=
 | SFor (x : name) (e : expr) (body : list stmt).          (* Für jede Zahl x in e, mache: body *)
 
 Record param := mkParam { pname : name; pref : bool }.
-Record fundecl := mkFun { fparams : list param; fbody : list stmt; fret : option expr }.
+(* fnometa: an instantiation of a generic function made from ANOTHER module than the one that declares it: the
+   annotator attaches its table to the declaring module's AST, the call site looks it up in the AST of the
+   instantiating module and finds none - such a function is never elided.  (An instantiation made in the declaring
+   module is an ordinary function at the position of the generic declaration: 9b42dd9 visits its body.) *)
+Record fundecl := mkFun { fparams : list param; fbody : list stmt; fret : option expr; fnometa : bool }.
 Record program := mkProg { pglobals : list (name * expr); pfuns : list fundecl; pmain : list stmt }.
 
 (* ---------------------------------------------------------------------------------------------- *)
@@ -113,7 +117,8 @@ Definition an_stmts (done : meta) (j : nat) (l : list stmt) (c : cstate) : cstat
   fold_left (fun c s => an_stmt done j s c) l c.
 
 Definition an_fun (done : meta) (j : nat) (fd : fundecl) : list bool :=
-  map snd (an_stmts done j (fbody fd) (map (fun p => (pname p, true)) (fparams fd))).
+  if fnometa fd then map (fun _ => false) (fparams fd)
+  else map snd (an_stmts done j (fbody fd) (map (fun p => (pname p, true)) (fparams fd))).
 
 Fixpoint an_funs (done : meta) (fs : list fundecl) : meta :=
   match fs with
